@@ -207,6 +207,7 @@ Inductive lop :=
 | LDrain (p : proto)
 | LQuit (i : nat)             (* POP3: send QUIT, read the reply, do not wait for the connection to close *)
 | LEnd (i : nat)              (* wait for the server to close the connection, look at the mailbox *)
+| LPlain                      (* a client that fails the TLS handshake of a ForceTLS POP3 server *)
 | LGate                       (* the store's RemoveMessage now blocks … *)
 | LUngate.                    (* … until here *)
 
@@ -216,6 +217,7 @@ Inductive lobs :=
 | XOk                        (* POP3 +OK *)
 | XFinS (data : option nat) (quit : nat) (n : nat)
 | XFinP (ok : bool) (n : nat)
+| XDropped
 | XReturned | XBlocked | XJoined | XFine | XOther.
 
 Record world := mkW { wc : bool; ws : srv; wp : srv; wgate : bool }.
@@ -333,6 +335,14 @@ Definition lstep (w : world) (o : lop) : world * lobs :=
       | Some s => match ph s with Ended => (w, XFinP true (left s)) | _ => (w, XQ) end
       | None => (w, XQ)
       end
+  | LPlain =>
+      (* the handshake itself is not modelled, only its effect: the session is accepted, starts,
+         fails at its first write, and ends like any other *)
+      let i := probe_id w in
+      match wrun w PPop3 [Accept i; Begin i; Abort i; Exit i] with
+      | Some w' => (w', XDropped)
+      | None => (w, XRefused)
+      end
   | LGate => (mkW (wc w) (ws w) (wp w) true, XDot)
   | LUngate =>
       let w0 := mkW (wc w) (ws w) (wp w) false in
@@ -398,7 +408,7 @@ Definition open_count (p : proto) (bs : list book) : nat :=
 
 Definition lobs_eqb (a b : lobs) : bool :=
   match a, b with
-  | XDot, XDot | XQ, XQ | XRefused, XRefused | XHeld, XHeld | XAccepted, XAccepted | XOk, XOk
+  | XDropped, XDropped | XDot, XDot | XQ, XQ | XRefused, XRefused | XHeld, XHeld | XAccepted, XAccepted | XOk, XOk
   | XReturned, XReturned | XBlocked, XBlocked | XJoined, XJoined | XFine, XFine => true
   | XCode x, XCode y => Nat.eqb x y
   | XFinS d q n, XFinS d' q' n' =>
@@ -483,6 +493,9 @@ Fixpoint loracle_go (k : nat) (ops : list lop) (os : list lobs) (down : bool) (b
                   else next down bs
               | None => next down bs
               end
+          | LPlain =>
+              if down then (if lobs_eqb x XRefused then next down bs else (LVAcceptedAfterShutdown k, os'))
+              else if lobs_eqb x XDropped then next down bs else (LVSessionDisturbed k, os')
           | LGate | LUngate => next down bs
           | LDrain p =>
               match x with
